@@ -17,7 +17,7 @@ from .c05 import build_file_network
 
 PROPERTY = "C06"
 LEVEL = "exploration"
-TECHNIQUE = "property-based testing (Hypothesis): generated window families per format, rendered EvalRates interpreted at boundary / nextafter / interior / exterior temperatures; oracle = window predicate + independent law"
+TECHNIQUE = "property-based testing (Hypothesis): generated window families per format, rendered EvalRates interpreted at boundary / nextafter / interior / exterior temperatures; oracle = window predicate + independent law; a fraction of the cases executes the cuSPARSE kernels on a batch of cells (host emulation of the CUDA launch) and compares every cell with the dense back-end"
 RULE = (
     "Per format (KIDA/UMIST/Leeds integer bounds, KROME '>', '<', '.GE.', '.LE.', 'NONE', d-exponents, UCLCHEM and "
     "native float bounds incl. non-integral ones) families of 1-4 reactions that split [Tlo,Thi) into adjacent "
@@ -28,6 +28,7 @@ RULE = (
     "zero-initialised ('= {0.0}'). Non-trivial = probe set contains an exact boundary of a two-sided window."
 )
 ASSUMPTIONS = [
+    "cuSPARSE back-end: kernel text for every case; for a fraction of the cases the rendered .cu files are compiled as C++ against a host emulation of the CUDA launch (vtlib/cxx/shim/vt_cuda.h, launch syntax rewritten mechanically) and run on 2-5 cells; batch temperatures are probe temperatures of the case",
     "UCLCHEM FREEZE lines are not generated here (their documented forced window is C07's subject)",
     "the law inside the window is positive by construction (alpha > 0, moderate beta/gamma) so 'non-zero' is decidable",
     "KROME window operators are read as naunet documents them: the bound value only; Tmin <= T < Tmax decides activity",
